@@ -147,12 +147,21 @@ def _params_equal(a, b):
     return json.dumps(a, sort_keys=True, default=str) == json.dumps(b, sort_keys=True, default=str)
 
 
-def h_single(B, cls="EOF", layout="2d", codec="identity", rot=None, p=3, flags=None, extra=None, when="after-fit"):
+def h_single(B, cls="EOF", layout="2d", codec="identity", rot=None, p=3, flags=None, extra=None, when="after-fit", aux=False):
     flags = dict(flags or {})
     extra = dict(extra or {})
     cplx = cls == "ComplexEOF"
     X, dim, fd = M.make_input(B, layout, 4 if cls != "ExtendedEOF" else 5, p, cplx, flags)
     X = _with_attrs(X)
+    if aux:
+        # non-index coordinates: a scalar one (left behind by .sel(level=500)), a 1-D one on a feature dim, one on the sample dim, a 2-D one
+        nm = X.name
+        X = X.assign_coords(level=500.0)
+        fdim = [d for d in X.dims if d != "time"]
+        X = X.assign_coords({"area_" + fdim[0]: (fdim[0], [1.5 + i for i in range(X.sizes[fdim[0]])]), "season": ("time", ["a", "b", "a", "b"][: X.sizes["time"]])})
+        if len(fdim) == 2:
+            X = X.assign_coords(cell=(tuple(fdim), np.arange(X.sizes[fdim[0]] * X.sizes[fdim[1]], dtype=float).reshape(X.sizes[fdim[0]], X.sizes[fdim[1]])))
+        X.name = nm
     model = M.single(cls, n_modes=2, solver="full", **flags, **extra)
     model.fit(X, dim)
     if rot:
@@ -185,8 +194,13 @@ def h_single(B, cls="EOF", layout="2d", codec="identity", rot=None, p=3, flags=N
         i1, i2 = model.scores().indexes[d], m2.scores().indexes[d]
         B.check(f"scores: index of {d} identical (incl. MultiIndex level order)", list(getattr(i1, "names", [])) == list(getattr(i2, "names", [])) and i1.equals(i2), f"{getattr(i1, 'names', None)} vs {getattr(i2, 'names', None)}")
     if cls not in ("ExtendedEOF", "HilbertEOF"):
-        if Xn is not None:
+        if Xn is not None and not aux:
             B.eq("transform(X_new) equal", m2.transform(Xn), model.transform(Xn))
+        if aux:
+            t_old = B.completes("transform(training data) on the original model runs", lambda: model.transform(X))
+            t_new = B.completes("transform(training data) on the rebuilt model runs", lambda: m2.transform(X))
+            if t_old is not None and t_new is not None:
+                B.eq("transform(training data) equal", t_new, t_old)
     if layout not in ("multiindex", "stacked-sample", "stacked-sample-ym"):
         S = xr.DataArray(B.array((2, 2), "S", cplx), dims=("time", "mode"), coords={"time": [100, 101], "mode": [1, 2]})
         B.eq("inverse_transform(S) equal", m2.inverse_transform(S), model.inverse_transform(S))
@@ -247,6 +261,8 @@ def configs(tier):
     for layout in ("3d", "dataset", "list", "multiindex", "stacked-sample", "stacked-sample-ym"):
         add("h_single", f"EOF|{layout}|netcdf-attrs", cls="EOF", layout=layout, p=4 if layout in ("3d", "dataset", "list") else 2, codec="netcdf-attrs")
         add("h_single", f"EOF|{layout}|json", cls="EOF", layout=layout, p=4 if layout in ("3d", "dataset", "list") else 2, codec="json")
+    add("h_single", "EOF|2d|non-index coordinates|json", cls="EOF", codec="json", aux=True)
+    add("h_single", "EOF|3d|non-index coordinates|netcdf-attrs", cls="EOF", layout="3d", p=4, codec="netcdf-attrs", aux=True)
     add("h_single", "EOF|list of 12 items|json", cls="EOF", layout="list12", p=2, codec="json")
     add("h_single", "EOF|2d|standardize|coslat-off|netcdf-attrs|after-transform", cls="EOF", codec="netcdf-attrs", flags={"standardize": True}, when="after-transform")
     add("h_single", "ComplexEOF|2d|netcdf-attrs", cls="ComplexEOF", codec="netcdf-attrs")
